@@ -20,19 +20,19 @@ import (
 
 // Result of one simulated run.
 type Result struct {
-	Violations []*sim.Violation
-	TraceHash  string
-	Steps      int
-	Interleave int
-	Faults     map[string]int
-	Probes     map[string]int
-	Counters   map[string]int // reconciles per controller etc.
-	SimSeconds float64
-	Trace      []string
-	Workload   any
+	Violations   []*sim.Violation
+	TraceHash    string
+	Steps        int
+	Interleave   int
+	Faults       map[string]int
+	Probes       map[string]int
+	Counters     map[string]int // reconciles per controller etc.
+	SimSeconds   float64
+	Trace        []string
+	Workload     any
 	Inconclusive string // non-empty: run did not reach the state the oracle needs
-	StateHashes []string
-	Trouble    string // harness trouble (exit 2)
+	StateHashes  []string
+	Trouble      string // harness trouble (exit 2)
 }
 
 // Prop is a property check.
@@ -128,28 +128,34 @@ type Replay struct {
 	Minimised bool     `json:"minimised"`
 	OrigLen   int      `json:"original_tape_len"`
 	Trace     []string `json:"trace_tail"`
+	// PrefixRunSeeds are the run seeds this worker process executed before the
+	// failing run. A violation that depends on process-global state of the code
+	// under test (a package-level cache poisoned by an earlier run) replays only
+	// after them; NeedsHistory is set once that has been established.
+	PrefixRunSeeds []uint64 `json:"prefix_run_seeds,omitempty"`
+	NeedsHistory   bool     `json:"needs_process_history,omitempty"`
 }
 
 // Summary is what a worker writes.
 type Summary struct {
-	Property     string             `json:"property"`
-	Worker       int                `json:"worker"`
-	Seed         uint64             `json:"seed"`
-	Runs         int                `json:"runs"`
-	WallS        float64            `json:"wall_s"`
-	SimS         float64            `json:"sim_s"`
-	Steps        int                `json:"steps"`
-	Interleave   int                `json:"interleaved_steps"`
-	Faults       map[string]int     `json:"faults_fired"`
-	Probes       map[string]int     `json:"probes"`
-	Counters     map[string]int     `json:"counters"`
-	Hashes       []string           `json:"nontrivial_trace_hashes"`
-	StateHashes  int                `json:"distinct_state_hashes"`
-	Inconclusive int                `json:"inconclusive"`
-	InconclusiveWhy map[string]int  `json:"inconclusive_reasons"`
-	Samples      []any              `json:"samples"`
-	Violations   []ViolationRecord  `json:"violations"`
-	Trouble      string             `json:"trouble"`
+	Property        string            `json:"property"`
+	Worker          int               `json:"worker"`
+	Seed            uint64            `json:"seed"`
+	Runs            int               `json:"runs"`
+	WallS           float64           `json:"wall_s"`
+	SimS            float64           `json:"sim_s"`
+	Steps           int               `json:"steps"`
+	Interleave      int               `json:"interleaved_steps"`
+	Faults          map[string]int    `json:"faults_fired"`
+	Probes          map[string]int    `json:"probes"`
+	Counters        map[string]int    `json:"counters"`
+	Hashes          []string          `json:"nontrivial_trace_hashes"`
+	StateHashes     int               `json:"distinct_state_hashes"`
+	Inconclusive    int               `json:"inconclusive"`
+	InconclusiveWhy map[string]int    `json:"inconclusive_reasons"`
+	Samples         []any             `json:"samples"`
+	Violations      []ViolationRecord `json:"violations"`
+	Trouble         string            `json:"trouble"`
 }
 
 // ViolationRecord is a violation found by a worker.
@@ -306,6 +312,7 @@ func Worker(t *testing.T) {
 	hashes := map[string]bool{}
 	states := map[string]bool{}
 	seenSig := map[string]bool{}
+	var history []uint64
 	for i := 0; i < maxRuns && time.Since(start) < budget; i++ {
 		runIdx := uint64(worker + i*workers)
 		rs := mix(seed, runIdx)
@@ -356,7 +363,7 @@ func Worker(t *testing.T) {
 			min := Shrink(t, p, used, v.Signature, shrinkBudget)
 			// re-run the minimised tape to record its hash and detail
 			rr := RunTape(t, p, sim.ReplayTape(min))
-			rep := &Replay{Property: id, Seed: seed, RunSeed: rs, Tape: min, Signature: v.Signature, Minimised: true, OrigLen: len(used)}
+			rep := &Replay{Property: id, Seed: seed, RunSeed: rs, Tape: min, Signature: v.Signature, Minimised: true, OrigLen: len(used), PrefixRunSeeds: append([]uint64(nil), history...)}
 			ok := false
 			for _, vv := range rr.Violations {
 				if vv.Signature == v.Signature {
@@ -384,6 +391,7 @@ func Worker(t *testing.T) {
 		if len(seenSig) >= 4 {
 			break
 		}
+		history = append(history, rs)
 	}
 	sum.WallS = time.Since(start).Seconds()
 	for h := range hashes {
@@ -417,10 +425,37 @@ func replayFile(t *testing.T, p Prop, path string) {
 		fmt.Printf("TROUBLE %v\n", err)
 		os.Exit(2)
 	}
+	withHistory := rep.NeedsHistory || os.Getenv("VERIF_REPLAY_HISTORY") != ""
+	if withHistory {
+		// bring the process into the state the failing run started from
+		for _, rs := range rep.PrefixRunSeeds {
+			if r := RunTape(t, p, sim.NewTape(rs)); r.Trouble != "" {
+				fmt.Printf("TROUBLE %s\n", r.Trouble)
+				os.Exit(2)
+			}
+		}
+		fmt.Printf("REPLAY-HISTORY %d earlier runs of the worker process re-executed first\n", len(rep.PrefixRunSeeds))
+	}
 	r := RunTape(t, p, sim.ReplayTape(rep.Tape))
 	if r.Trouble != "" {
 		fmt.Printf("TROUBLE %s\n", r.Trouble)
 		os.Exit(2)
+	}
+	if withHistory && !rep.NeedsHistory {
+		// first confirmation with history: record what an exact replay looks like
+		for _, v := range r.Violations {
+			if v.Signature == rep.Signature {
+				rep.NeedsHistory, rep.TraceHash, rep.Step, rep.Detail = true, r.TraceHash, v.Step, v.Detail
+				tr := r.Trace
+				if len(tr) > 200 {
+					tr = tr[len(tr)-200:]
+				}
+				rep.Trace = tr
+				if nb, err := json.MarshalIndent(rep, "", " "); err == nil {
+					_ = os.WriteFile(path, nb, 0o644)
+				}
+			}
+		}
 	}
 	if os.Getenv("VERIF_REPLAY_TRACE") != "" {
 		fmt.Println(strings.Join(r.Trace, "\n"))
